@@ -14,4 +14,6 @@ run_one() {
 }
 export -f run_one
 SEL=("$@"); [ ${#SEL[@]} -eq 0 ] && SEL=($(ls -d */ | tr -d /))
-printf '%s\n' "${SEL[@]}" | xargs -P 4 -I{} bash -c 'run_one {}'
+OUT=$(printf '%s\n' "${SEL[@]}" | xargs -P 3 -I{} bash -c 'run_one {}')
+echo "$OUT"
+if [ $# -eq 0 ]; then { echo '# Refactoring sweep (all 20 properties on every kept behaviour-preserving refactoring)'; echo; echo '```'; echo "$OUT" | grep -E '^(silent|ALARM|skipped)' | sed 's/ALL //g; s/ VIOLATION//g' | sort -k2; echo '```'; echo; echo "silent: $(echo "$OUT" | grep -c '^silent') of $(echo "$OUT" | grep -cE '^(silent|ALARM)')"; } > /verif/refactorings/SWEEP.md; fi
